@@ -94,9 +94,10 @@ def dec_ps(t):
 def model_name(fn, types):
     t = types[0]
     if fn == "sum":
-        return "sum_f" if t == "f64" else ("sum_i128" if t.startswith("dec") else "sum_i64")
+        return "sum_f" if t == "f64" else ("sum_i128" if t.startswith("dec") else ("sum_u64" if t == "u64" else "sum_i64"))
     if fn == "avg":
-        return "avg_f" if t == "f64" else ("avg_dec:%d" % dec_ps(t)[1] if t.startswith("dec") else "avg_i")
+        return "avg_f" if t == "f64" else ("avg_dec:%d" % dec_ps(t)[1] if t.startswith("dec") else
+                                           ("avg_u64" if t == "u64" else "avg_i"))
     if fn == "first":
         return "first_s" if t == "utf8" else "first_i"
     if fn == "stddev":
@@ -183,12 +184,18 @@ def gen_int_vals(rng, flavour, n, t, extremes):
     if flavour == "equal":
         v = clamp(rng.choice([7, -3, 0, hi // 3, lo // 3]))
         return [v] * n
+    if flavour == "bigsmall" and t == "u64":
+        # SUM / AVG(UInt64) (a40c65193): beyond f64's 53 bits, beyond i64, the maximum; sums beyond 2^64
+        return [rng.choice(U64_BOUNDARY) for _ in range(n)]
     if flavour == "bigsmall":
         pool = [hi // 2, hi // 2 + 1, lo // 2, 1, -1, 2, 0] + ([hi, lo, hi - 1, lo + 1] if extremes else [])
         return [clamp(rng.choice(pool)) for _ in range(n)]
     if flavour == "neg":
         return [clamp(-1 - rng.below(100)) for _ in range(n)]
     return [clamp(rng.below(2001) - 1000) for _ in range(n)]
+
+
+U64_BOUNDARY = [2 ** 53 - 1, 2 ** 53, 2 ** 53 + 1, 2 ** 63 - 1, 2 ** 63, 2 ** 63 + 1, 2 ** 64 - 1, 2 ** 64 - 2, 0, 1]
 
 
 def int_cell(t, v):
@@ -226,7 +233,7 @@ def gen_chunks(rng, fn, types, tiny):
     kind = item_kind(fn, types)
     t = types[0]
     nchunks = 1 + rng.below(5)
-    extremes = fn in ("min", "max", "bit_and", "bit_or", "first", "count") or rng.chance(15)
+    extremes = fn in ("min", "max", "bit_and", "bit_or", "first", "count") or rng.chance(15) or t == "u64"
 
     def vals(n):
         if kind == "pair":
@@ -305,8 +312,8 @@ def plan_sexp(plan, chunks, kind):
 
 STATE_FUNCS = (
     [("count", [t]) for t in ("utf8", "i64", "f64")] +
-    [("sum", [t]) for t in INT_T + DEC_T + ["f64", "f64"]] +
-    [("avg", [t]) for t in ["i64", "f64", "f64"] + DEC_T] +
+    [("sum", [t]) for t in INT_T + DEC_T + ["f64", "f64", "u64", "u64", "u64"]] +
+    [("avg", [t]) for t in ["i64", "f64", "f64", "u64", "u64", "u64"] + DEC_T] +
     [(f, ["f64"]) for f in FLOAT1 for _ in range(3)] +
     [(f, ["f64", "f64"]) for f in FLOAT2 for _ in range(2)] +
     [(f, [t]) for f in ("min", "max", "bit_and", "bit_or") for t in INT_T + UINT_T] +
@@ -325,6 +332,14 @@ FIXED_STATE = [
     ("sum", ["i64"], [["I%d" % (2 ** 63 - 1), "I1", "I-1"]], 0),
     ("sum", ["i64"], [["I%d" % (2 ** 63 - 1)], ["I1", "I-1"]], ["node", 0, 1]),
     ("sum", ["dec64(5,-2)"], [["D12/5/-2"], ["D34/5/-2"]], ["node", 0, 1]),
+    # SUM / AVG(UInt64): 2^53 +- 1, 2^63, 2^64 - 1, totals beyond 2^64
+    ("sum", ["u64"], [["I%d" % (2 ** 53 + 1)]], 0),
+    ("sum", ["u64"], [["I%d" % (2 ** 53 + 1), "I%d" % (2 ** 53 - 1)], ["I%d" % 2 ** 63], ["N", "I%d" % (2 ** 64 - 1)]],
+     ["node", ["node", 0, 1], 2]),
+    ("sum", ["u64"], [["I%d" % (2 ** 64 - 1)] * 4, ["I%d" % (2 ** 64 - 1)] * 3, ["I1"]], ["more", ["node", 1, 0], 2]),
+    ("avg", ["u64"], [["I%d" % (2 ** 53 + 1)]], 0),
+    ("avg", ["u64"], [["I%d" % (2 ** 64 - 1)] * 4, ["I%d" % (2 ** 64 - 1)] * 3, ["I1"]], ["more", ["node", 1, 0], 2]),
+    ("avg", ["u64"], [["I%d" % 2 ** 63, "I%d" % (2 ** 63 + 2)], ["I%d" % (2 ** 53 - 1), "N"]], ["node", 0, 1]),
 ] + [
     # x constant 0.1 over four partial states: NULL sequentially, garbage after merges
     (f, ["f64", "f64"], [[[fcell(1.0), fcell(0.1)], [fcell(2.0), fcell(0.1)], [fcell(4.0), fcell(0.1)]],
@@ -656,7 +671,7 @@ def make_sql_case(rng, n):
     dt = "dec%d(%d,%d)" % (64 if p <= 18 else 128, p, s)
     it = rng.choice(["i64", "i64", "i32", "i16"])
     cols = [("g", "i32"), ("a", "f64"), ("b", "f64"), ("i", it), ("d", "dec(%d,%d)" % (p, s)), ("s", "text"), ("k", "bool"),
-            ("c", "f64")]
+            ("c", "f64"), ("u", "u64")]
     ngroups = rng.choice([1, 2, 3, 4])
     nchunks = 1 + rng.below(5)
     big_ints = rng.chance(12) and it == "i64"
@@ -676,16 +691,17 @@ def make_sql_case(rng, n):
         dv = gen_int_vals(rng, fd, nrows, dt, False)
         if p > 36:      # keep AVG(decimal)'s i128 accumulator in range at this level (the state level covers the overflow)
             dv = [max(-10 ** 36, min(10 ** 36, v)) for v in dv]
-        m = min(len(av), len(bv), len(cv), len(iv), len(dv), nrows) or 1
+        uv = gen_int_vals(rng, rng.choice(["bigsmall", "bigsmall", "mixed", "zeros", "equal"]), nrows, "u64", True)
+        m = min(len(av), len(bv), len(cv), len(iv), len(dv), len(uv), nrows) or 1
         rows = []
         for j in range(m):
             g = "I%d" % (1 + rng.below(ngroups))
             if shape == "allnull":
-                rows.append([g, "N", "N", "N", "N", "N", "N", "N"])
+                rows.append([g, "N", "N", "N", "N", "N", "N", "N", "N"])
                 continue
             row = [g, fcell(av[j % len(av)]), fcell(bv[j % len(bv)]), "I%d" % iv[j % len(iv)],
                    "D%d/%d/%d" % (dv[j % len(dv)], p, s), "S" + rng.choice([x for x in STR_POOL if x and "," not in x]),
-                   "B1" if rng.chance(60) else "B0", fcell(cv[j % len(cv)])]
+                   "B1" if rng.chance(60) else "B0", fcell(cv[j % len(cv)]), "I%d" % uv[j % len(uv)]]
             if shape == "withnulls":
                 row = [row[0]] + [("N" if rng.chance(25) else x) for x in row[1:]]
             rows.append(row)
@@ -694,7 +710,7 @@ def make_sql_case(rng, n):
     for rows in chunks:
         stmts += gen.insert_rows("t", cols, rows)
     # queries: (sql select list entry, function, types, argument columns, distinct?)
-    A, B, I, D, S, K, C = 1, 2, 3, 4, 5, 6, 7
+    A, B, I, D, S, K, C, U = 1, 2, 3, 4, 5, 6, 7, 8
     calls = []
     for f in ("avg", "sum", "var_pop", "var_samp", "stddev_pop", "stddev_samp", "count"):
         calls.append(("%s(a)" % f, f, ["f64"], [A], False))
@@ -706,6 +722,8 @@ def make_sql_case(rng, n):
         calls.append(("%s(i)" % f, f, [it], [I], False))
     for f in ("avg", "sum", "min", "max"):
         calls.append(("%s(d)" % f, f, [dt], [D], False))
+    for f in ("avg", "sum", "sum", "avg", "max", "count"):
+        calls.append(("%s(u)" % f, f, ["u64"], [U], False))
     calls += [("string_agg(s, ',')", "string_agg", ["utf8", "utf8"], [S], False), ("first(s)", "first", ["utf8"], [S], False),
               ("first(i)", "first", [it], [I], False), ("bool_and(k)", "bool_and", ["bool"], [K], False),
               ("bool_or(k)", "bool_or", ["bool"], [K], False), ("count(s)", "count", ["utf8"], [S], False)]
@@ -714,6 +732,7 @@ def make_sql_case(rng, n):
               ("sum(distinct i)", "sum", [it], [I], True), ("avg(distinct i)", "avg", [it], [I], True),
               ("count(distinct i)", "count", [it], [I], True), ("min(distinct i)", "min", [it], [I], True),
               ("sum(distinct d)", "sum", [dt], [D], True), ("avg(distinct d)", "avg", [dt], [D], True),
+              ("sum(distinct u)", "sum", ["u64"], [U], True), ("avg(distinct u)", "avg", ["u64"], [U], True),
               ("count(distinct s)", "count", ["utf8"], [S], True), ("string_agg(distinct s, ',')", "string_agg", ["utf8", "utf8"], [S], True),
               ("bool_and(distinct k)", "bool_and", ["bool"], [K], True)]
     # a random half of the calls per query keeps the statements short
